@@ -138,6 +138,8 @@ def r1_census(facts, rep, fx):
                 ent = DIV_TABLE.get((p, m))
                 if ent is None:
                     okk, what = divisor_nonzero(facts, b, t)
+                    if not okk:
+                        okk, what = divisor_term_nonzero(facts, b, site)
                     rep.ob("C11-R1", "div:%s:%s" % (p, m), okk, ("division in %s: the divisor is %s" % (p, what)) if okk else
                            "division (%s) in %s is not in the discharge table and its divisor is %s" % (name, p, what), site)
                     continue
@@ -202,6 +204,90 @@ def auto_discharge(facts, body, site):
     if not outs:
         return False, "no path of the function could be explored"
     return True, "no path of %s reaches it: the condition is implied on all %d explored paths (term domain: integrality and sign facts)" % (body.path, len(outs))
+
+
+def term_nonzero(t):
+    """A term that cannot be zero whatever its symbols are: a non-zero constant, a power / product / quotient / negation /
+    reciprocal of such terms."""
+    from ..absint.term import K, T
+    from ..absint.core import Const
+    if isinstance(t, K):
+        return t.v != 0
+    if isinstance(t, Const) and isinstance(t.v, int) and not isinstance(t.v, bool):
+        return t.v != 0
+    if isinstance(t, T):
+        if t.op == "pow":
+            return term_nonzero(t.args[0])
+        if t.op in ("*", "/", "new"):
+            return all(term_nonzero(a) for a in t.args)
+        if t.op in ("neg", "recip", "abs"):
+            return term_nonzero(t.args[0])
+    return False
+
+
+def divisor_term_nonzero(facts, body, site):
+    """Explore the function with the term domain (helpers followed) and look at the divisor of every division reached at
+    `site`: discharged when each of them is a term that cannot be zero."""
+    from ..absint import core
+    from ..absint.core import Agg
+    from ..absint.term import TermDomain, Sym, T
+    from .evalops import numeric
+
+    class D(TermDomain):
+        def __init__(self):
+            super().__init__()
+            self.uninterp = lambda n: facts.fn(n) is None
+            self.divs = []
+
+        def on_assert(self, it, body_, t, sp, st, frame):
+            return False
+
+        def num_call(self, it, ty, m, trait, args, vals, store):
+            if m in ("div", "div_assign", "rem", "rem_assign") and len(vals) == 2:
+                self.divs.append((self.cur_site, vals[1]))
+            return super().num_call(it, ty, m, trait, args, vals, store)
+
+        def call(self, it, name, args, store, term, frame):
+            self.cur_site = None
+            return super().call(it, name, args, store, term, frame)
+
+    args = []
+    for i in range(1, body.arg_count + 1):
+        ty = body.local_ty(i).replace("&mut ", "").replace("&", "").strip()
+        if ty.startswith("rational::Rational"):
+            args.append(Agg("adt", "rational::Rational", 0, "Rational", (Sym("a%d" % i),)))
+        elif ty.startswith("numeric::Numeric"):
+            args.append(numeric("a%d" % i))
+        else:
+            args.append(Sym("a%d" % i))
+    dom = D()
+    it = core.Interp(facts, dom, budget=80000)
+    # record the site of the division by intercepting at the call terminator level
+    orig = it._call
+
+    def _call(body_, frame, t, sp, st, depth):
+        prev = getattr(dom, "site_now", None)
+        dom.site_now = body_.site(sp)
+        n0 = len(dom.divs)
+        r = orig(body_, frame, t, sp, st, depth)
+        if body_.path == body.path:
+            # attribute every division performed below this call of the analysed function to the call's own site
+            for k in range(n0, len(dom.divs)):
+                dom.divs[k] = (body_.site(sp), dom.divs[k][1])
+        dom.site_now = prev
+        return r
+    it._call = _call
+    try:
+        outs = it.run(body, args, {})
+    except core.Undecided as e:
+        return False, "undecided: %s" % e
+    mine = [d for s_, d in dom.divs if s_ == site]
+    if not mine:
+        return False, "not reached by the exploration"
+    bad = [d for d in mine if not term_nonzero(d.field(0) if isinstance(d, Agg) and d.path == "rational::Rational" else d)]
+    if bad:
+        return False, "not provably non-zero: %r" % (bad[0],)
+    return True, "a term that cannot be zero on every explored path (%r)" % (mine[0].field(0) if isinstance(mine[0], Agg) and mine[0].path == "rational::Rational" else mine[0],)
 
 
 def index_ok(facts, body, t):
